@@ -1,7 +1,7 @@
 (* C12 — after FlushAll with every other assembler quiescent the pool holds no connection.
    Holds for the code as it stands (with recycling): the recorded recycled-connection hazards
    need a second assembler that is still inside a call. *)
-From GP Require Import Base ListX C12Model C12Proofs C12Term.
+From GP Require Import Base ListX C12Model C12Proofs C12Term C12AgeFree.
 From Coq Require Import Lia.
 Open Scope nat_scope.
 
@@ -101,6 +101,26 @@ Proof.
   - eapply inv_pool_reachable; eassumption.
 Qed.
 
+(* what the argument needs from the configuration and the programs: the second remove is never
+   pending and the pool invariant holds in every reachable state *)
+Definition good (g : config) (progs : list (list op)) : Prop :=
+  forall s, Reach g progs s -> no_trail cstate s /\ inv_pool cstate cinit cclosed g s.
+Lemma good_trail g progs : trail_cfg g = false -> good g progs.
+Proof.
+  intros GT s R. split; [eapply no_trail_reachable; eassumption|eapply inv_pool_reachable; eassumption].
+Qed.
+Lemma good_age_free g progs : (forall st, ctrail None st = false) -> age_free_progs progs -> good g progs.
+Proof.
+  intros Hct AF s R. split.
+  - exact (no_trail_age_free cstate cinit cclosed creset process flush ctrail Hct g progs s AF R).
+  - exact (proj1 (invariants_age_free cstate cinit cclosed creset process flush ctrail Hm Hct g progs s AF R)).
+Qed.
+Lemma inv_cl_good g progs s : good g progs -> Reach g progs s -> inv_cl s.
+Proof.
+  intros GD. induction 1 as [|s t s' R IH E]; [intros k c H; destruct H|].
+  destruct (GD s R) as [NT IP]. eapply inv_cl_step; eassumption.
+Qed.
+
 Definition quiescent_but (s : State) (t : nat) : Prop :=
   forall t2, t2 <> t -> t_pc (thr s t2) = PDone \/ t_pc (thr s t2) = PPanic.
 
@@ -118,7 +138,8 @@ Proof.
 Qed.
 
 (* the flusher works through the rest of its snapshot: every entry of the map is in the rest *)
-Lemma flush_rest g progs (GT : trail_cfg g = false) t prog : forall r s,
+Lemma flush_rest g progs (GD : good g progs)
+  (Htrail : forall st, is_rsm g && g_trail g && ctrail None st = false) t prog : forall r s,
   Reach g progs s -> quiescent_but s t ->
   t_pc (thr s t) = cont_flush None r prog -> t_prog (thr s t) = prog -> t < length (s_thr s) ->
   (forall k c, In (k, c) (s_conns s) -> In c r) ->
@@ -129,16 +150,14 @@ Proof.
   - exists s. split; [constructor|]. split; [exact R|]. split; [|auto].
     destruct (s_conns s) as [|[k c] l]; [reflexivity|]. destruct (Hent k c (or_introl eq_refl)).
   - cbn [cont_flush] in Hpc.
-    pose proof (inv_pool_reachable _ _ _ _ _ _ _ Hm _ _ _ GT R) as IP.
-    pose proof (inv_cl_reachable _ _ _ GT R) as J.
+    destruct (GD s R) as [_ IP].
+    pose proof (inv_cl_good _ _ _ GD R) as J.
     assert (Hlock : c_lock (obj' s c) = None).
     { destruct (c_lock (obj' s c)) as [t0|] eqn:El; [|reflexivity]. exfalso.
       destruct (inv_lock_reachable _ _ _ _ _ _ _ _ _ _ R _ _ El) as [k0 Hk0].
       destruct (Nat.eq_dec t0 t) as [->|N]; [rewrite Hpc in Hk0; discriminate|].
       destruct (Q _ N) as [H|H]; rewrite H in Hk0; discriminate. }
     assert (En : enabled' s t = true) by (unfold enabled; rewrite Hpc, Hlock; reflexivity).
-    assert (Htrail : forall st, is_rsm g && g_trail g && ctrail None st = false).
-    { intros st. unfold trail_cfg in GT. rewrite GT. reflexivity. }
     (* c is not in the map when it is closed *)
     assert (Hclosed_out : cclosed (c_st (obj' s c)) = true -> forall k0 c0, In (k0, c0) (s_conns s) -> In c0 r).
     { intros Hcl k0 c0 Hin. destruct (Hent _ _ Hin) as [<-|H]; [|exact H].
@@ -223,13 +242,14 @@ Proof.
 Qed.
 
 (* FlushAll called while every other assembler is quiescent: the call returns and the pool is empty *)
-Lemma flushall_empties_pool g progs s t rest :
-  trail_cfg g = false -> Reach g progs s -> quiescent_but s t ->
+Lemma flushall_empties_pool_good g progs s t rest :
+  good g progs -> (forall st, is_rsm g && g_trail g && ctrail None st = false) ->
+  Reach g progs s -> quiescent_but s t ->
   t_pc (thr s t) = PStart -> t_prog (thr s t) = OFlush None :: rest ->
   exists s', runs' g s s' /\ Reach g progs s' /\ s_conns s' = [] /\
              t_pc (thr s' t) = next_pc rest /\ t_prog (thr s' t) = rest /\ quiescent_but s' t.
 Proof.
-  intros GT R Q Hpc Hpr.
+  intros GD Htrail R Q Hpc Hpr.
   assert (Lt : t < length (s_thr s)) by (apply pc_lt; rewrite Hpc; discriminate).
   assert (En : enabled' s t = true) by (unfold enabled; rewrite Hpc; reflexivity).
   destruct (exec' g s t) as [s1|] eqn:E1.
@@ -242,13 +262,32 @@ Proof.
     cbn. unfold set_thr. apply upd_length. }
   destruct Es1 as [Ec [Eth [Eoth Elen]]].
   assert (R1 : Reach g progs s1) by (eapply R_step; eassumption).
-  destruct (flush_rest g progs GT t rest (sort_ids (map snd (s_conns s))) s1 R1) as [s' [Hr Hrest]].
+  destruct (flush_rest g progs GD Htrail t rest (sort_ids (map snd (s_conns s))) s1 R1) as [s' [Hr Hrest]].
   - intros t2 N. rewrite (Eoth _ N). apply Q; assumption.
   - rewrite Eth. reflexivity.
   - rewrite Eth. reflexivity.
   - lia.
   - intros k c Hin. rewrite Ec in Hin. apply sort_ids_in. apply in_map_iff. exists (k, c); auto.
   - exists s'. split; [eapply runs_step; eassumption|exact Hrest].
+Qed.
+Lemma flushall_empties_pool g progs s t rest :
+  trail_cfg g = false -> Reach g progs s -> quiescent_but s t ->
+  t_pc (thr s t) = PStart -> t_prog (thr s t) = OFlush None :: rest ->
+  exists s', runs' g s s' /\ Reach g progs s' /\ s_conns s' = [] /\
+             t_pc (thr s' t) = next_pc rest /\ t_prog (thr s' t) = rest /\ quiescent_but s' t.
+Proof.
+  intros GT. apply flushall_empties_pool_good; [apply good_trail; exact GT|].
+  intros st. unfold trail_cfg in GT. rewrite GT. reflexivity.
+Qed.
+(* the reassembly code as it is (second remove present), programs of packets and FlushAll only *)
+Lemma flushall_empties_pool_age_free g progs s t rest :
+  (forall st, ctrail None st = false) -> age_free_progs progs -> Reach g progs s -> quiescent_but s t ->
+  t_pc (thr s t) = PStart -> t_prog (thr s t) = OFlush None :: rest ->
+  exists s', runs' g s s' /\ Reach g progs s' /\ s_conns s' = [] /\
+             t_pc (thr s' t) = next_pc rest /\ t_prog (thr s' t) = rest /\ quiescent_but s' t.
+Proof.
+  intros Hct AF. apply flushall_empties_pool_good; [apply good_age_free; assumption|].
+  intros st. rewrite Hct. apply andb_false_r.
 Qed.
 End Flush.
 
